@@ -176,8 +176,12 @@ def unwrap(x):
     return x
 
 
-def globals_of(ns):
-    return {k: describe(v) for k, v in ns.items() if k not in NOT_STUDENT and not k.startswith('_temporary_')}
+PEDAL_PUTS_THESE_IN_THE_NAMESPACE = {'input', 'compile', 'eval', 'exec', 'globals', 'exit', 'open', '__import__'}
+
+
+def globals_of(ns, own=frozenset()):
+    """student globals; a name pedal itself plants in the namespace counts only when the student's program defines it (`own`)"""
+    return {k: noaddr(describe(v)) for k, v in ns.items() if (k not in NOT_STUDENT or k in own) and not k.startswith('_temporary_')}
 
 
 HOSTILE_ARGS = [
@@ -185,7 +189,17 @@ HOSTILE_ARGS = [
     ("inf", "[float('inf')]"), ("nan", "[float('nan')]"), ("neg-zero", "[-0.0]"), ("big-int", "[10 ** 40]"),
     ("none", "[None]"), ("tuple", "[(1, 'a', 2.5)]"), ("set", "[{3, 1, 2}]"), ("bytes", "[b'ab']"), ("bool", "[True]"),
     ("str-quotes", "['it\\'s \"q\"\\n\\\\']"), ("empty", "[]"), ("two-long", "['y' * 250, list(range(100))]"),
+    # values whose repr() is not an expression that evaluates back to them in the student's namespace
+    ("decimal", "[__import__('decimal').Decimal('1.5')]"), ("fraction", "[__import__('fractions').Fraction(1, 3)]"),
+    ("namedtuple", "[__import__('collections').namedtuple('P', 'x y')(1, 2)]"), ("defaultdict", "[__import__('collections').defaultdict(int, a=1)]"),
+    ("ordered-dict", "[__import__('collections').OrderedDict(a=1)]"), ("type-object", "[int]"), ("builtin-function", "[len]"),
+    ("plain-object", "[object()]"), ("lambda", "[lambda: 1]"), ("range", "[range(3)]"), ("bytearray", "[bytearray(b'ab')]"), ("complex", "[2+3j]"),
+    ("ellipsis", "[...]"), ("frozenset", "[frozenset({1, 2})]"), ("empty-set", "[set()]"), ("nested-inf", "[[float('inf'), {'k': float('nan')}]]"),
+    ("date", "[__import__('datetime').date(2020, 1, 2)]"), ("generator", "[(i for i in range(3))]"), ("iterator", "[iter([1, 2])]"),
+    ("exception-object", "[ValueError('v')]"), ("module", "[__import__('math')]"), ("memoryview", "[memoryview(b'ab')]"),
 ]
+ALIASED_ARGS = [("same-list-twice", "(lambda x: [x, x])([1, 2])"), ("same-dict-twice", "(lambda x: [x, x])({'k': 1})"),
+                ("list-and-list-holding-it", "(lambda x: [x, [x]])([1])")]
 
 
 def check_program(ctx, case):
@@ -233,7 +247,8 @@ def check_program(ctx, case):
             ctx.violation('C06|exception-line-differs|%s' % want, case, 'CPython line %r, sandbox feedback line %r' % (ref_line, got_line))
         ctx.count('exception_lines_compared')
     # ---- globals ---------------------------------------------------------------------------------------
-    g_ref, g_sb = globals_of(ref_ns), globals_of(sandbox.data)
+    g_ref = globals_of(ref_ns, PEDAL_PUTS_THESE_IN_THE_NAMESPACE)       # plain CPython has them only if the program binds them
+    g_sb = globals_of(sandbox.data, PEDAL_PUTS_THESE_IN_THE_NAMESPACE & set(g_ref))
     if set(g_ref) != set(g_sb):
         ctx.violation('C06|global-names-differ|%s' % ('extra-in-sandbox' if set(g_sb) - set(g_ref) else 'missing-in-sandbox'), case,
                       'only CPython: %s; only sandbox: %s' % (sorted(set(g_ref) - set(g_sb)), sorted(set(g_sb) - set(g_ref))))
@@ -291,11 +306,32 @@ def check_program(ctx, case):
                 return      # the two worlds have diverged: later differences would only be consequences
 
 
+def noaddr(text):
+    import re
+    return re.sub(r' at 0x[0-9a-fA-F]+', ' at 0x?', text)
+
+
+def safe_copy(args):
+    try:
+        return copy.deepcopy(args)
+    except Exception:
+        # generators, modules, memoryviews: build the argument list afresh is not possible here; share (they are only read)
+        return list(args)
+
+
 def call_once(ctx, case, sandbox, ref_ns, fname, label, argsrc, rng):
     from pedal.sandbox import commands as sbx
+    sb_args = None
     try:
-        args = eval(argsrc, {'__builtins__': builtins})
+        if argsrc.startswith('ns:'):
+            # built from the program's own classes: one object per world, each of that world's class
+            args = eval(argsrc[3:], dict(ref_ns))
+            sb_args = eval(argsrc[3:], dict(sandbox.data))
+        else:
+            args = eval(argsrc, {'__builtins__': builtins})
+            sb_args = eval(argsrc, {'__builtins__': builtins})      # a second, equal argument list (iterators get used up)
     except Exception:
+        ctx.count('argument_source_not_evaluable')
         return
     target = '_'
     kwargs = {}
@@ -318,14 +354,14 @@ def call_once(ctx, case, sandbox, ref_ns, fname, label, argsrc, rng):
     ref_res = ref_exc = None
     with contextlib.redirect_stdout(buf):
         try:
-            ref_res = ref_ns[fname](*copy.deepcopy(args), **kwargs)
+            ref_res = ref_ns[fname](*(args if argsrc.startswith('ns:') else safe_copy(args)), **kwargs)
         except BaseException as e:
             ref_exc = e
     if ref_exc is None and target != '_':
         ref_ns[target] = ref_res
     sbx.clear_output()
     try:
-        res = sbx.call(fname, *copy.deepcopy(args), target=target, **kwargs)
+        res = sbx.call(fname, *(safe_copy(args) if sb_args is None else sb_args), target=target, **kwargs)
     except BaseException as e:
         ctx.count('call_raised_(C04 territory)')
         return
@@ -338,11 +374,11 @@ def call_once(ctx, case, sandbox, ref_ns, fname, label, argsrc, rng):
         ctx.violation('C06|call-outcome-differs|args=%s|sandbox=%s' % (label, type(exc).__name__ if exc else 'returns'),
                       dict(case, call=sub), 'CPython %r / %r, sandbox %r / %r' % (ref_res, ref_exc, unwrap(res), exc))
     elif ref_exc is None:
-        a, b = describe(ref_res), describe(unwrap(res))
+        a, b = noaddr(describe(ref_res)), noaddr(describe(unwrap(res)))
         if a != b:
             ctx.violation('C06|call-result-differs|%s' % key, dict(case, call=sub), 'CPython %s, sandbox %s' % (a[:300], b[:300]))
     out = sbx.get_raw_output()
-    if out != buf.getvalue():
+    if noaddr(out) != noaddr(buf.getvalue()):
         ctx.violation('C06|call-output-differs|%s' % key, dict(case, call=sub), 'CPython %r, sandbox %r' % (buf.getvalue()[-300:], out[-300:]))
     keys_after = set(sandbox.data.keys())
     leaked = [k for k in keys_after - keys_before if k.startswith('_temporary_')]
@@ -399,11 +435,46 @@ def subprocess_validate(ctx, src, inputs):
         shutil.rmtree(d, ignore_errors=True)
 
 
+def special_programs():
+    """hand-written programs for corners the generator does not reach: (name, source, [(function, [argument sources])])"""
+    out = []
+    for name in sorted(PEDAL_PUTS_THESE_IN_THE_NAMESPACE - {'__import__'}):
+        # the student's own function happens to be called like a builtin that pedal replaces
+        out.append(('own-function-named-like-a-replaced-builtin', "def %s(x):\n    return x * 2\nshadow_v = %s(3)\nprint(shadow_v)\n" % (name, name),
+                    [(name, ['[5]', '[7]'])]))
+    out.append(('own-variable-named-like-a-replaced-builtin', "input = 5\nopen = [1, 2]\nprint(input, open)\ndef total():\n    return input + len(open)\n",
+                [('total', ['[]', '[]'])]))
+    for depth in (2, 5, 7, 8, 9, 12, 30):
+        out.append(('failure-under-%d-frames' % depth,
+                    "def dig(n):\n    if n == 0:\n        return [1, 2][5]\n    below = dig(n - 1)\n    return below + 1\nprint('start')\ndig(%d)\n" % depth,
+                    [('dig', ['[%d]' % depth])]))
+    chain = ''.join("def step%d(v):\n    w = v + 1\n    return step%d(w)\n" % (i, i + 1) for i in range(10)) + \
+        "def step10(v):\n    return 100 // (v - 10)\n"
+    out.append(('failure-at-the-end-of-a-10-function-chain', chain + "print(step0(5))\nprint(step0(0))\n", [('step0', ['[0]', '[3]']), ('step4', ['[6]'])]))
+    out.append(('own-class-instance-as-argument', "class Dog:\n    def __init__(self, name, tricks):\n        self.name = name\n        self.tricks = tricks\n"
+                "def describe_dog(d):\n    return d.name + ':' + ','.join(d.tricks)\ndef teach(d, trick):\n    d.tricks.append(trick)\n    return len(d.tricks)\n"
+                "def same(a, b):\n    return a is b\nrex = Dog('rex', ['sit'])\nprint(describe_dog(rex))\n",
+                [('describe_dog', ["ns:[Dog('fido', ['roll'])]"]), ('teach', ["ns:[Dog('fido', []), 'beg']", "ns:[rex, 'beg']"]), ('same', ["ns:[rex, rex]", "ns:[Dog('a', []), Dog('a', [])]"])]))
+    out.append(('aliased-arguments', "def grow(a, b):\n    a.append(1)\n    return len(b)\ndef same(a, b):\n    return a is b\ndef put(d, e):\n    d['new'] = 1\n    return sorted(e)\n",
+                [('grow', [a for _, a in ALIASED_ARGS[:1]] + ['[[1], [1]]']), ('same', [a for _, a in ALIASED_ARGS] + ['[[1], [1]]']), ('put', [ALIASED_ARGS[1][1]])]))
+    out.append(('any-value-passed-through', "def ident(v):\n    return v\ndef kind(v):\n    return type(v).__name__\ndef both(v, w=None):\n    return [kind(v), kind(w)]\n",
+                [('ident', [a for _, a in HOSTILE_ARGS]), ('kind', [a for _, a in HOSTILE_ARGS]), ('both', ["[object(), 5]", "[3, len]"])]))
+    out.append(('failure-in-a-method-chain', "class Node:\n    def __init__(self, nxt):\n        self.nxt = nxt\n    def depth(self):\n        if self.nxt is None:\n"
+                "            return self.missing\n        return 1 + self.nxt.depth()\nhead = None\nfor _ in range(9):\n    head = Node(head)\nprint(head.depth())\n", []))
+    return out
+
+
 def run(ctx):
     from gen.programs import gen_program
     rng = ctx.rng
     n = ctx.pick(600, 12000)
     nval = ctx.pick(2, 25)
+    specials = special_programs()
+    for name, src, functions in specials[ctx.shard % 3::3]:
+        ctx.seen('special_programs', name)
+        check_program(ctx, {'src': src, 'inputs': [], 'inputs2': None, 'functions': [list(f) for f in functions], 'features': [name],
+                            'planted': False, '_rng': None, 'extra_args': []})
+        ctx.count('special_programs_compared')
     for i in range(n):
         if ctx.time_left() < 3:
             break
